@@ -1,9 +1,23 @@
-import ShpanVerif.Util.Parse
-/- Driver handler for C01 (stub: replaced when the property's model lands). -/
+import ShpanVerif.Drive.PipeCommon
+/-
+Driver handler for C01: every opened resource is closed exactly once, on every exit path.
+Spec predicate on the observation: for every probe resource the event projection is
+(open-ok emit* close)* followed by at most one failed open, i.e. closed exactly once per successful open,
+never closed/pulled outside an open window, everything closed when the terminal returned; and nothing
+happened before the terminal operation (pre = 0).
+-/
 namespace ShpanVerif.Drive.C01
+open ShpanVerif.Util ShpanVerif.Model.Pipe ShpanVerif.Drive.PipeCommon
 
-/-- returns (model output, spec verdict on the observation, reason) -/
-def handle (_c _obs : String) : String × Bool × String :=
-  ("unimplemented", false, "no model yet")
+def handle (c obs : String) : String × Bool × String :=
+  match parseCase c with
+  | none => ("bad-case", false, "unparsable case")
+  | some (p, rs) =>
+    let model := modelText p rs
+    match parseObs obs with
+    | some os =>
+      let bad := os.filter (fun o => !(obsBalanced o && o.pre == 0))
+      (model, bad.isEmpty, if bad.isEmpty then "" else "unbalanced open/close (or effects before the terminal)")
+    | none => (model, false, "unparsable observation")
 
 end ShpanVerif.Drive.C01
